@@ -111,9 +111,10 @@ def run(ch: Checker) -> None:
                     fmt = ce.try_eval(m, c.args[0])
                     if not isinstance(fmt, str):
                         continue
-                    second = c.args[1]
-                    # second-byte packs mention `masked`
-                    if not any(isinstance(n, ast.Attribute) and n.attr == 'masked' for n in ast.walk(second)):
+                    second = sym.value(c.args[1], idx)
+                    # second-byte packs mention `masked` (directly or through a local) -- or the path tested it
+                    if not any(isinstance(n, ast.Attribute) and n.attr == 'masked' for n in ast.walk(second)) and not any(k == 'self.masked' for k, v in p.facts(idx) if True) \
+                            or not any('payload_length <' in k for k, v in p.facts(idx)):
                         continue
                     if id(c) in seen_sites:
                         continue
@@ -137,7 +138,7 @@ def run(ch: Checker) -> None:
                         want_ext = {126: 2, 127: 8}[marker]
                         want_bound = {126: 1 << 16, 127: 1 << 64}[marker]
                         # the value packed after the marker must be the payload length
-                        vals_ok = len(c.args) >= 3 and norm(c.args[-1]).endswith('payload_length')
+                        vals_ok = len(c.args) >= 3 and norm(sym.value(c.args[-1], idx)).endswith('payload_length')
                         ch.check(ext == want_ext and bound == want_bound and vals_ok, 'C16.2', build, c,
                                  'marker %d: %d extension bytes below %d' % (marker, ext, want_bound),
                                  'marker %d written with %d extension byte(s) under threshold %r, value %s (RFC 6455: %d bytes below %d)'
@@ -188,7 +189,7 @@ def run(ch: Checker) -> None:
         for idx, n, lab in p.executed():
             if n.ast is None or n.kind not in ('stmt', 'test'):
                 continue
-            reads = _reads_of(n.ast, raw_param)
+            reads = _reads_of(n.ast, raw_param, sym, idx)
             for sub in reads:
                 v = sym.value(sub, idx)
                 sl = v.slice  # type: ignore[attr-defined]
@@ -244,22 +245,53 @@ def run(ch: Checker) -> None:
                          'payload length is derived from data only when data is truthy: an empty payload leaves the length unset')
                 break
 
-    # ---------------- C16.5 bit layout
-    first = _first_byte_layout(build, m, ce)
+    # ---------------- C16.5 bit layout (evaluated on the inlined header bytes under every assignment of the flags)
+    RFC = {'fin': 128, 'rsv1': 64, 'rsv2': 32, 'rsv3': 16}
+    bad5 = None
+    n5 = 0
+    bad5b = None
+    n5b = 0
+    for p in fpaths(gb):
+        if p.exit_kind != 'return':
+            continue
+        sym = Sym(p)
+        fd = dict(p.facts())
+        packs = [(i, c) for i, st in p.stmts() for c in walk_no_nested(st) if isinstance(c, ast.Call) and attr_chain(c.func) == 'struct.pack' and len(c.args) >= 2]
+        if not packs:
+            continue
+        i0, c0 = packs[0]
+        first = sym.value(c0.args[1], i0)
+        import itertools
+        for combo in itertools.product((False, True), repeat=4):
+            vals = dict(zip(('fin', 'rsv1', 'rsv2', 'rsv3'), combo))
+            if any(fd.get('self.%s' % k) is not None and fd.get('self.%s' % k) != v for k, v in vals.items()):
+                continue
+            n5 += 1
+            got = _eval_with(first, dict(vals, opcode=5), m, ce)
+            want = sum(RFC[k] for k, v in vals.items() if v) | 5
+            if got != want:
+                bad5 = ('first header byte for %s, opcode 5 evaluates to %r, RFC 6455 says %d (expression %s)' % (vals, got, want, norm(first)[:80]), p.describe(12))
+        if len(packs) >= 2:
+            i1, c1 = packs[1]
+            second = sym.value(c1.args[1], i1)
+            for masked in (False, True):
+                if fd.get('self.masked') is not None and fd.get('self.masked') != masked:
+                    continue
+                n5b += 1
+                g0 = _eval_with(second, {'masked': masked, 'payload_length': 0}, m, ce)
+                if not (isinstance(g0, int) and ((g0 & 128) == 128) == masked):
+                    bad5b = ('second header byte: the MASK flag does not occupy bit 128 (masked=%s -> %r)' % (masked, g0), p.describe(12))
+    for field in ('fin', 'rsv1', 'rsv2', 'rsv3'):
+        ch.check(bad5 is None and n5 > 0, 'C16.5', build, 'bit %s' % field, 'first byte = FIN|RSV1|RSV2|RSV3|opcode at the RFC positions (%d flag assignments evaluated)' % n5,
+                 bad5[0] if bad5 else 'first header byte not found', witness=bad5[1] if bad5 else None)
     pf = prog.own_method('WebsocketFrame', 'parse_fin_and_rsv')
     dec_bits = _decoder_masks(pf, m, ce)
-    for field, want in (('fin', 128), ('rsv1', 64), ('rsv2', 32), ('rsv3', 16)):
-        e, d = first.get(field), dec_bits.get(field)
-        ch.check(e == want and d == want, 'C16.5', build, 'bit %s' % field, '%s uses bit value %d on both sides' % (field, want),
-                 '%s: encoder bit %r, decoder mask %r (RFC 6455: %d)' % (field, e, d, want))
-    ch.check(dec_bits.get('opcode') == 15 and first.get('opcode') == 'raw', 'C16.5', pf, 'opcode mask',
-             'opcode = low 4 bits on both sides', 'opcode: decoder mask %r, encoder %r' % (dec_bits.get('opcode'), first.get('opcode')))
+    okd = all(dec_bits.get(k) == v for k, v in RFC.items()) and dec_bits.get('opcode') == 15
+    ch.check(okd, 'C16.5', pf, 'decoder masks', 'decoder masks FIN/RSV/opcode at the same positions', 'decoder masks are %s (expected %s and opcode 15)' % (dec_bits, RFC))
     pm = prog.own_method('WebsocketFrame', 'parse_mask_and_payload')
     d2 = _decoder_masks(pm, m, ce)
-    enc_mask_bit = _second_byte_mask_bits(build, m, ce)
-    ch.check(d2.get('masked') == 128 and d2.get('payload_length') == 127 and enc_mask_bit == {128}, 'C16.5', pm, 'second byte',
-             'MASK bit 128 and 7-bit length on both sides',
-             'second byte: decoder masks %r, encoder MASK bit value(s) %r' % (d2, sorted(enc_mask_bit)))
+    ch.check(d2.get('masked') == 128 and d2.get('payload_length') == 127 and bad5b is None and n5b > 0, 'C16.5', pm, 'second byte',
+             'MASK bit 128 and 7-bit length on both sides', bad5b[0] if bad5b else 'second byte: decoder masks %r' % d2, witness=bad5b[1] if bad5b else None)
 
     # ---------------- C16.6 masking key
     bad6 = 0
@@ -385,6 +417,22 @@ def run(ch: Checker) -> None:
 
 
 # ---------------------------------------------------------------- helpers
+class _SubstAttrs(ast.NodeTransformer):
+    def __init__(self, values: Dict[str, Any]):
+        self.values = values
+
+    def visit_Attribute(self, n: ast.Attribute) -> ast.AST:
+        if isinstance(n.value, ast.Name) and n.value.id == 'self' and n.attr in self.values:
+            return ast.copy_location(ast.Constant(value=self.values[n.attr]), n)
+        return self.generic_visit(n)
+
+
+def _eval_with(e: ast.AST, values: Dict[str, Any], m: Any, ce: ConstEval) -> Any:
+    import copy as _copy
+    e2 = ast.fix_missing_locations(_SubstAttrs(values).visit(_copy.deepcopy(e)))
+    return ce.try_eval(m, e2)
+
+
 def _slice_width(v: ast.AST) -> Optional[Lin]:
     if isinstance(v, ast.Subscript) and isinstance(v.slice, ast.Slice) and v.slice.upper is not None:
         return linform(v.slice.upper) - linform(v.slice.lower)
@@ -402,22 +450,31 @@ def _unpack_width(fn: FuncInfo, call: ast.Call, prog: Any) -> Optional[Lin]:
 
 
 def _marker_of(second: ast.AST, m: Any, ce: ConstEval) -> Any:
-    """`(1<<7 if masked else 0) | X` -> 'LEN' if X is the payload length, else the constant X"""
-    if isinstance(second, ast.BinOp) and isinstance(second.op, ast.BitOr):
-        for side in (second.right, second.left):
-            if any(isinstance(n, ast.Attribute) and n.attr == 'masked' for n in ast.walk(side)):
-                continue
-            if norm(side).endswith('payload_length'):
-                return 'LEN'
-            v = ce.try_eval(m, side)
-            if isinstance(v, int):
-                return v
-    return None
+    """second header byte (locals inlined): 'LEN' if its 7-bit field carries the payload length itself, else the constant
+    marker in that field (the MASK bit is ignored here, it is checked by C16.5)"""
+    if any(isinstance(n, ast.Attribute) and n.attr == 'payload_length' for n in ast.walk(second)):
+        v0 = _eval_with(second, {'masked': False, 'payload_length': 0}, m, ce)
+        v5 = _eval_with(second, {'masked': False, 'payload_length': 5}, m, ce)
+        if isinstance(v0, int) and isinstance(v5, int) and (v0 & 127, v5 & 127) == (0, 5):
+            return 'LEN'
+        return None
+    v = _eval_with(second, {'masked': False}, m, ce)
+    return (v & 127) if isinstance(v, int) else None
 
 
-def _reads_of(node: ast.AST, name: str) -> List[ast.Subscript]:
-    out = [n for n in walk_no_nested(node) if isinstance(n, ast.Subscript) and isinstance(n.value, ast.Name) and n.value.id == name
-           and isinstance(n.ctx, ast.Load)]
+def _reads_of(node: ast.AST, name: str, sym: Any = None, idx: int = 0) -> List[ast.Subscript]:
+    """subscripts of the input buffer (the parameter itself, or a local that is a plain copy of it, e.g. the renamed
+    parameter of an inlined helper)"""
+    out = []
+    for n in walk_no_nested(node):
+        if isinstance(n, ast.Subscript) and isinstance(n.value, ast.Name) and isinstance(n.ctx, ast.Load):
+            base = n.value
+            if base.id == name:
+                out.append(n)
+            elif sym is not None:
+                v = sym.value(base, idx)
+                if isinstance(v, ast.Name) and v.id == name:
+                    out.append(n)
     out.sort(key=lambda n: (n.lineno, n.col_offset))
     return out
 
